@@ -199,7 +199,9 @@ func cycleRun(which cyc.Which, g Gen) core.RunFunc {
 			} else if e.Property == "C01" {
 				e.Violate("crash", "frame="+fr, "the coordination cycle panicked: %s", tr.Panic)
 			} else {
-				e.Undecided("cycle panicked (C01's business): %s", fr)
+				// a crash is C01's business; this run says nothing about the other properties
+				e.Probe("cycle_panicked_run_skipped")
+				return
 			}
 		}
 		cyc.Check(tr, which, cyc.EnvReporter{E: e})
